@@ -85,6 +85,8 @@ ASSUMPTIONS = {
         "several engines may hold the same label objects; an engine is judged only immediately after its own completed compute()",
         "abort points are line events in files under <repo>/labella only; label/option space is sampled",
         "the reference is the same real code on fresh objects in a pristine forked child",
+        "what an engine's public options dict holds are its options: set_options() calls and a direct write of lineSpacing (a key that needs no derived value) both count as re-configuration",
+        "labels may be re-measured (Node.width assigned) between computes; all live objects of a set at one position get the same new width",
     ],
     "C04": [
         "trailing empty layers (algorithm `simple` with more estimated layers than labels) are tolerated",
